@@ -1070,7 +1070,14 @@ func runClusterCase(rng *rand.Rand, thorough bool, out *bufio.Writer, st *stats,
 							x = cand
 						}
 					}
-					if ok && len(nv) > 0 && x != nil {
+					// (not when one of those non-voters runs with pre-vote disabled: if it has missed its own
+					// demotion it campaigns with real RequestVotes of ever higher terms, which x adopts before
+					// it refuses the vote - term inflation by a server the property's premise excludes)
+					anyNoPV := false
+					for _, d := range nv {
+						anyNoPV = anyNoPV || c.noPV[d]
+					}
+					if ok && len(nv) > 0 && x != nil && !anyNoPV {
 						// x itself must know that they are non-voters
 						nvx, okx := c.nonVoters(x)
 						if okx && len(nvx) == len(nv) {
